@@ -549,6 +549,7 @@ def child_second_of_two(root: str, cfg_a: dict, cfg_b: dict) -> dict:
             continue
         buf = io.StringIO()
         eu.EXMOD_OUT_STREAM = buf
+        err = None  # (per run: an exception of the preview is not an outcome of the second run)
         rec[0] = record
         try:
             main(R.cli_args(cfg, os.path.join(root, cfg["out_rel"]), dry))
